@@ -83,6 +83,16 @@ NUM_LADDER = [bool, int, float, complex]
 def belongs(t, k):
     if t is k or k is object:
         return True
+    # an instance of a subclass is an instance of the kind (IntEnum member in an int column,
+    # IsoCalendarDate in a tuple column); subclass placement on the ladders is C04's business
+    if isinstance(t, type) and isinstance(k, type) and issubclass(t, k) and not (t is bool) and not (t is datetime and k is date):
+        return True
+    if isinstance(t, type) and t not in NUM_LADDER:
+        # rung of a subclass instance = its builtin base (bool cannot be subclassed)
+        for base in (int, float, complex):
+            if issubclass(t, base):
+                t = base
+                break
     if t in NUM_LADDER and k in NUM_LADDER:
         return NUM_LADDER.index(t) <= NUM_LADDER.index(k)
     if t is date and k is datetime:
